@@ -26,7 +26,12 @@ def cases(draw, tier):
     t = draw(st.sampled_from(gen.TYPES))
     nmax = 3 if tier == "quick" else 4
     sc = draw(gen.state_case(types=[t], n=(1, nmax), nh=(1, 3), na=(1, 3), scales=[0.05, 0.5, 2.0, 2.0, 8.0, 30.0], bound=80.0))
-    return {"state": sc, "batch": draw(gen.index_list(sc["n"], 3, 7)) if draw(st.integers(0, 5)) else draw(gen.index_list(sc["n"], 60, 90)), "fmt": draw(st.integers(0, 2))}
+    c = {"state": sc, "batch": draw(gen.index_list(sc["n"], 3, 7)) if draw(st.integers(0, 5)) else draw(gen.index_list(sc["n"], 60, 90)), "fmt": draw(st.integers(0, 2))}
+    if draw(st.booleans()):
+        # second parameter set written in place into the same object after the first evaluations (same batches evaluated again)
+        alt = draw(gen.state_case(types=[t], n=(sc["n"], sc["n"]), nh=(sc["nh"], sc["nh"]), na=(sc.get("na", 1), sc.get("na", 1)), scales=[0.5, 2.0], bound=80.0))
+        c["alt"] = {"am": alt["am"], "ph": alt.get("ph")}
+    return c
 
 
 def fmt_region(A, how):
@@ -64,7 +69,12 @@ def check(case):
             bi[a], bj[a] = bj[a], bi[a]
         return R.row_to_index(bi), R.row_to_index(bj)
 
-    def pair_ref(i, j, A):
+    with R.library_precision():          # precision tier (see c01.py): product-form reference, agreement to ~1e-13
+        ref_state_prec = R.rho_ref(am, ph, V) if sc["type"] == "density" else R.psi_ref(am, ph, V)
+        # the documented importance weight of a mixed state divides by probability(sigma), which sums the auxiliary units in product form too
+        den_prec = torch.exp(R.log_prob_visible(am, V)) if sc["type"] == "density" else None
+
+    def pair_ref(i, j, A, ref_state=ref_state):
         """SWAP_A value of the ordered pair (i, j): Re[w(i'|i) w(j'|j)] with the library's documented importance weights"""
         ip, jp = swapped(i, j, A)
         if sc["type"] == "density":
@@ -106,6 +116,14 @@ def check(case):
                     pr = pair_ref(i, j, A)
                     require(abs(Fm[i, j] - pr) <= 1e-6 * abs(pr) + 1e-9, "pair-value",
                             f"SWAP value of the pair ({i},{j}) for A={A} is {Fm[i, j]}, the product of the two importance weights is {pr}")
+                    ip_, jp_ = swapped(i, j, A)
+                    if sc["type"] == "density":
+                        wp = (ref_state_prec[ip_, i] / den_prec[i]) * (ref_state_prec[jp_, j] / den_prec[j])
+                    else:
+                        wp = (ref_state_prec[ip_] / ref_state_prec[i]) * (ref_state_prec[jp_] / ref_state_prec[j])
+                    wmag, prp = float(wp.abs()), float(wp.real)
+                    require(abs(Fm[i, j] - prp) <= 1e-10 * wmag + 1e-300, "precision:pair-value",
+                            f"SWAP value of the pair ({i},{j}) for A={A} is not accurate to double precision: {Fm[i, j]!r} vs {prp!r}")
                     held.append((out, out.detach().clone()))
                     if len(held) > 4:
                         o_old, o_val = held.pop(0)
@@ -138,6 +156,29 @@ def check(case):
             want = torch.tensor([F[idx[b], idx[(b + d) % Bn]] for b in range(Bn)], dtype=torch.double)
             ok = ok or bool(torch.all((out - want).abs() <= 1e-9 * (1 + want.abs())))
         require(ok, "pairing", f"within a batch each sample must be paired with a cyclic neighbour (A={A})", got=out.tolist())
+    if case.get("alt"):
+        # history on the same state object and the same batch tensor: parameters A (above) -> B written in place -> A restored
+        altc = dict(sc, am=case["alt"]["am"], ph=case["alt"]["ph"])
+        am2, ph2 = gen.ref_nets(altc)
+        ref2 = R.rho_ref(am2, ph2, V) if sc["type"] == "density" else R.psi_ref(am2, ph2, V)
+        idx = case["batch"]
+        Bn = batch.shape[0]
+        regs = [A for A in regions if 0 < len(A)][:3]
+        objs = {tuple(A): SWAP(list(A)) for A in regs}
+        first = {tuple(A): objs[tuple(A)].apply(state, batch).double().clone() for A in regs}
+        for label, params, refst in (("B", altc, ref2), ("A again", sc, ref_state)):
+            gen.set_net(state.rbm_am, params["am"])
+            if params.get("ph"):
+                gen.set_net(state.rbm_ph, params["ph"])
+            for A in regs:
+                out = objs[tuple(A)].apply(state, batch).double()
+                ok = False
+                for d in (+1, -1):
+                    want = torch.tensor([pair_ref(idx[b], idx[(b + d) % Bn], A, refst) for b in range(Bn)], dtype=torch.double)
+                    ok = ok or bool(torch.all((out - want).abs() <= 1e-6 * want.abs() + 1e-9))
+                require(ok, "after-inplace-update:pair-value", f"after the parameters were changed in place (now parameter set {label}) SWAP on the same batch is not the product of the importance weights of the CURRENT state (A={A})")
+                if label == "A again":
+                    require(bool(torch.all((out - first[tuple(A)]).abs() <= 1e-12 * (1 + first[tuple(A)].abs()))), "after-inplace-update:not-restored", f"with the first parameters restored SWAP differs from its first evaluation (A={A})")
     if sc["type"] != "density":
         for A in regions:
             comp = tuple(sorted(set(range(n)) - set(A)))
